@@ -320,6 +320,11 @@ func (x *fnExec) ctx(st *State) *EvalCtx {
 					vars[fmt.Sprintf("$visited%d", l2.ordinal)] = mkTerm(it.Visited, arrSort(it.KSort, sBool), nil)
 				}
 			}
+			if sl := rangedSlice(in); sl != nil {
+				if t, ok := st.vals[sl]; ok {
+					vars[fmt.Sprintf("$range%d", l2.ordinal)] = t
+				}
+			}
 		}
 	}
 	return &EvalCtx{v: x.v, pkg: x.pkg, vars: vars, st: st}
@@ -662,6 +667,29 @@ func (x *fnExec) bindPhis(st *State, b, pred *ssa.BasicBlock) {
 	}
 }
 
+// rangedSlice: for the comparison `index < len(s)` in the head of a rangeindex loop, the slice s.
+func rangedSlice(in ssa.Instruction) ssa.Value {
+	bo, ok := in.(*ssa.BinOp)
+	if !ok || bo.Op != token.LSS {
+		return nil
+	}
+	if _, isIdx := bo.X.(*ssa.BinOp); !isIdx {
+		return nil
+	}
+	lc, ok := bo.Y.(*ssa.Call)
+	if !ok {
+		return nil
+	}
+	b, ok := lc.Call.Value.(*ssa.Builtin)
+	if !ok || b.Name() != "len" || len(lc.Call.Args) != 1 {
+		return nil
+	}
+	if _, isSlice := lc.Call.Args[0].Type().Underlying().(*types.Slice); !isSlice {
+		return nil
+	}
+	return lc.Call.Args[0]
+}
+
 func (x *fnExec) ctxLoop(st *State, li *loopInfo) *EvalCtx {
 	c := x.ctx(st)
 	// $visited: the visited set of the map iterator advanced in this loop's head
@@ -688,6 +716,12 @@ func (x *fnExec) ctxLoop(st *State, li *loopInfo) *EvalCtx {
 			if nx, ok := in.(*ssa.Next); ok {
 				if it, ok := st.iters[nx.Iter]; ok && it.Kind == "map" {
 					c.vars[fmt.Sprintf("$visited%d", l2.ordinal)] = mkTerm(it.Visited, arrSort(it.KSort, sBool), nil)
+				}
+			}
+			// $range: the slice a rangeindex loop walks over (often an unnamed call result)
+			if sl := rangedSlice(in); sl != nil && l2 == li {
+				if t, ok := st.vals[sl]; ok {
+					c.vars["$range"] = t
 				}
 			}
 		}
